@@ -126,6 +126,10 @@ def judge_c01(part, scn, x):
             cc_ok.add(toks)
     accepted = main_ok if g_cc is None else (main_ok & cc_ok)
     any_success = any(e[0] == 'verdict' and e[2] for e in x.log)
+    if x.pruned:
+        # cut at an already visited state: judge only what happened so far
+        shared_files(part, scn, x)
+        return
     if x.out_bytes is None:
         if x.rc == 0 and any_success:
             viol(part, 'C01|no-output-file', scn, x,
@@ -143,8 +147,13 @@ def judge_c01(part, scn, x):
         viol(part, 'C01|output-not-an-accepted-candidate', scn, x,
              f'token sequence of the output file was never run and accepted: '
              f'{brief_tokens(ntoks)}')
+    shared_files(part, scn, x)
+
+
+def shared_files(part, scn, x):
     # candidate files must be process-private (this is what makes a verdict
     # belong to its candidate)
+    rt = x.rt
     seen = {}
     for w, paths in rt.paths_by_worker.items():
         for p in paths:
@@ -198,7 +207,7 @@ def judge_c05(part, scn, x):
             cur = w
     if n_writes:
         common.pcount(part, 'executions_with_writes')
-        if x.out_bytes != last_file:
+        if not x.pruned and x.out_bytes != last_file:
             viol(part, 'C05|file-at-exit-is-not-last-write', scn, x,
                  'output file at exit differs from the last written content')
     succ = sum(1 for e in x.log if e[0] == 'verdict' and e[2])
@@ -255,6 +264,8 @@ def proposals_on(final_exprs):
 
 
 def judge_c02(part, scn, x):
+    if x.pruned:
+        return
     if x.crash is not None or x.rc != 0:
         common.pcount(part, 'crashed_or_failed_executions')
         return
